@@ -24,6 +24,12 @@ func makeTlsConfig(cfg *TlsConfig, requireCert bool) (*tls.Config, error) {
 		}
 		c.RootCAs = pool
 	}
+	if cfg.VerifyClientCert {
+		// A listener that verifies its clients: require a certificate that chains to the configured CA
+		// (system roots if none is configured).
+		c.ClientAuth = tls.RequireAndVerifyClientCert
+		c.ClientCAs = c.RootCAs
+	}
 
 	if cfg.DebugUseTempCert {
 		cert, err := testutils.GenerateCertificate("test.test")
